@@ -16,6 +16,8 @@ func main() {
 		os.Exit(cmdFacts(os.Args[2:]))
 	case "worker":
 		os.Exit(cmdWorker(os.Args[2:]))
+	case "run":
+		os.Exit(cmdRun(os.Args[2:]))
 	case "try":
 		os.Exit(cmdTry(os.Args[2:]))
 	default:
@@ -25,18 +27,41 @@ func main() {
 }
 
 func cmdTry(args []string) int {
-	max := 20000000
-	st := correspond([]CaseSet{genCorpusAllEntries(max)})
+	what := "corpus"
+	if len(args) > 0 {
+		what = args[0]
+	}
+	r := newRng(seedFromEnv())
+	var sets []CaseSet
+	switch what {
+	case "corpus":
+		sets = append(sets, genCorpusAllEntries(200000))
+	case "single":
+		sets = append(sets, genSingleField(r, 16))
+	case "random":
+		sets = append(sets, genRandomStreams(r, "random-streams", 3000, fullKnobs(), ""))
+	case "malformed":
+		sets = append(sets, genMalformed(r, 5000))
+	}
+	st := correspond(sets)
 	fmt.Printf("evaluations=%d distinct=%d mismatches=%d hangs=%d outcomes=%v\n", st.Evaluations, st.Distinct, st.NMismatch, st.Hangs, st.Outcomes)
 	for i, m := range st.Mismatches {
-		if i >= 5 {
+		if i >= 4 {
 			break
 		}
 		c := m.Case
-		if len(c) > 200 {
-			c = c[:200]
+		if len(c) > 700 {
+			c = c[:700]
 		}
-		fmt.Printf("MISMATCH case=%s\n  impl =%.300s\n  model=%.300s\n  where=%s\n", c, m.Impl, m.Model, m.Where)
+		fmt.Printf("MISMATCH case=%s\n  impl =%.400s\n  model=%.400s\n  where=%s\n", c, m.Impl, m.Model, m.Where)
 	}
 	return 0
+}
+
+func seedFromEnv() uint64 {
+	var s uint64 = 1
+	if v := os.Getenv("VERIF_SEED"); v != "" {
+		fmt.Sscan(v, &s)
+	}
+	return s
 }
